@@ -84,7 +84,7 @@ def build(tree, st):
         if n in "CDE":
             objs[n] = magpy.Collection(position=pos, orientation=ori)
         elif n == "s":
-            objs[n] = magpy.Sensor(pixel=[(0, 0, 0), (0.1, 0.2, 0.3)], position=pos, orientation=ori)
+            objs[n] = magpy.Sensor(pixel=[(0.013, 0.007, -0.011), (0.071, 0.113, 0.127)], position=pos, orientation=ori)
         else:
             objs[n] = magpy.magnet.Cuboid(dimension=(0.4, 0.5, 0.6), polarization=(0.1, 0.2, 0.3), position=pos, orientation=ori)
     for p, chs in TREES[tree].items():
